@@ -178,10 +178,208 @@ fn visit(path: &[usize], ops: &[Op], local: &mut Local) {
     }
 }
 
+// ------------------------------------------------------------------------------ focused machines
+
+/// A focused machine: a fixed set-up and a small alphabet around one container, searched deeper
+/// (and with indices, keys and aliasing the general alphabet does not have).
+pub struct Machine {
+    pub name: &'static str,
+    pub setup: Vec<Op>,
+    pub alphabet: Vec<Op>,
+    pub depth: usize,
+}
+
+/// 'static byte strings built at run time; interned in a global so that each is allocated once
+/// and stays reachable (LeakSanitizer must not see the harness's own constants as leaks)
+fn leak(s: String) -> &'static [u8] {
+    static POOL: std::sync::Mutex<Vec<&'static [u8]>> = std::sync::Mutex::new(Vec::new());
+    let mut pool = POOL.lock().unwrap();
+    if let Some(p) = pool.iter().find(|p| **p == s.as_bytes()) {
+        return p;
+    }
+    let b: &'static [u8] = Box::leak(s.into_bytes().into_boxed_slice());
+    pool.push(b);
+    b
+}
+
+pub fn machines(tier: Tier) -> Vec<Machine> {
+    let mut out = vec![];
+    // list: three values pushed, replaced, removed and read at every index 0..=3, incl. the list into itself
+    {
+        let mut a = vec![Op::Push(0, 1), Op::Push(0, 2), Op::Push(0, 0)];
+        for i in 0..=3usize {
+            a.push(Op::SetAt(0, i, 1));
+            a.push(Op::SetAt(0, i, 2));
+            a.push(Op::RemoveAt(0, i));
+            a.push(Op::GetAt(0, i));
+        }
+        a.push(Op::SetAt(0, 0, 0));
+        out.push(Machine { name: "list", setup: vec![Op::Make(0, Ctor::List), Op::Make(1, Ctor::Number), Op::Make(2, Ctor::Str(b"s"))], alphabet: a, depth: tier.pick(5, 6) });
+    }
+    // dict: camelCase, empty, non-ASCII, blank-containing, 300-byte and invalid keys; overwriting; the dict into itself
+    {
+        let long: &'static [u8] = leak("k".repeat(300));
+        let keys: Vec<&'static [u8]> = vec![b"a", b"b", b"siteRef", b"", "é".as_bytes(), b"a b", long, BAD_UTF8];
+        let mut a = vec![Op::Keys(0, 2), Op::Keys(0, 0)];
+        for k in keys {
+            a.push(Op::Insert(0, k, 1));
+            a.push(Op::Insert(0, k, 2));
+            a.push(Op::RemoveKey(0, k));
+            a.push(Op::GetKey(0, k));
+        }
+        a.push(Op::Insert(0, b"self", 0));
+        out.push(Machine { name: "dict", setup: vec![Op::Make(0, Ctor::Dict), Op::Make(1, Ctor::Number), Op::Make(2, Ctor::Str(b"s"))], alphabet: a, depth: tier.pick(3, 4) });
+    }
+    // grid: four sparse rows over three columns; rows into a fresh handle, a dict handle and the grid itself; filters
+    {
+        let mut a = vec![];
+        for i in 0..=4usize {
+            a.push(Op::RowAt(0, i, 1));
+            a.push(Op::RowAt(0, i, 2));
+        }
+        a.push(Op::RowAt(0, 1, 0));
+        a.push(Op::FilterParse(b"b"));
+        a.push(Op::FilterParse(b"a > 3 or c"));
+        a.push(Op::FirstMatch(0, 1));
+        a.push(Op::MatchAll(0, 1));
+        a.push(Op::MatchAll(0, 2));
+        a.push(Op::MatchAll(0, 0));
+        a.push(Op::MatchAll(1, 2));
+        a.push(Op::MatchDict(2));
+        a.push(Op::Make(1, Ctor::GridFromRows(2)));
+        a.push(Op::Destroy(1));
+        out.push(Machine {
+            name: "grid",
+            setup: vec![Op::Make(0, Ctor::Zinc(b"ver:\"3.0\"\na,b,c\n1,2,3\n,\"x\",\n4,,6\n7,8,9\n")), Op::Make(1, Ctor::Init), Op::Make(2, Ctor::Json(b"[{\"a\":1},{\"b\":\"x\"},{\"a\":5,\"c\":{\"_kind\":\"marker\"}}]"))],
+            alphabet: a,
+            depth: tier.pick(3, 4),
+        });
+    }
+    out
+}
+
+/// values the general alphabet does not construct: interior NUL in every string position, long
+/// and non-ASCII strings, extreme numbers, dates and coordinates, multi-alias units, UTC timestamps
+pub fn exotic_ctors() -> Vec<Ctor> {
+    let long_str: &'static [u8] = leak(format!("\"{}\"", "é😀x".repeat(30_000)));
+    vec![
+        Ctor::Json(b"{\"_kind\":\"ref\",\"val\":\"a\\u0000b\"}"),
+        Ctor::Json(b"{\"_kind\":\"ref\",\"val\":\"r\",\"dis\":\"a\\u0000b\"}"),
+        Ctor::Json(b"{\"_kind\":\"symbol\",\"val\":\"a\\u0000b\"}"),
+        Ctor::Json(b"{\"_kind\":\"xstr\",\"type\":\"T\\u0000y\",\"val\":\"v\"}"),
+        Ctor::Json(b"{\"_kind\":\"xstr\",\"type\":\"Ty\",\"val\":\"a\\u0000b\"}"),
+        Ctor::Json(b"{\"_kind\":\"uri\",\"val\":\"a\\u0000b\"}"),
+        Ctor::Json(b"{\"a\\u0000b\":1}"),
+        Ctor::Json(b"\"a\\u0000b\""),
+        Ctor::Json(b"[{\"_kind\":\"ref\",\"val\":\"a\\u0000b\"}]"),
+        Ctor::Json(b"{\"_kind\":\"grid\",\"cols\":[{\"name\":\"a\\u0000b\"}],\"rows\":[]}"),
+        Ctor::Json(b"{\"_kind\":\"dateTime\",\"val\":\"2021-01-01T00:00:00Z\",\"tz\":\"UTC\"}"),
+        Ctor::Json(b"{\"_kind\":\"number\",\"val\":5,\"unit\":\"kilowatt\"}"),
+        Ctor::Json(b"{\"_kind\":\"number\",\"val\":\"-INF\"}"),
+        Ctor::Json(b"{\"_kind\":\"coord\",\"lat\":91,\"lng\":-181.5}"),
+        Ctor::Zinc(b"\"a\\u0000b\""),
+        Ctor::Zinc(b"`a\\u0000b`"),
+        Ctor::Zinc(b"@r \"a\\u0000b\""),
+        Ctor::Zinc(long_str),
+        Ctor::Zinc("\"é😀\"".as_bytes()),
+        Ctor::Zinc(b"\"\""),
+        Ctor::Zinc(b"-0"),
+        Ctor::Zinc(b"NaN"),
+        Ctor::Zinc(b"-INF"),
+        Ctor::Zinc(b"1e400"),
+        Ctor::Zinc(b"4294967296.5"),
+        Ctor::Zinc(b"-2147483649"),
+        Ctor::Zinc(b"5kilowatt"),
+        Ctor::Zinc(b"9999-12-31"),
+        Ctor::Zinc(b"0000-01-01"),
+        Ctor::Zinc(b"2024-02-29"),
+        Ctor::Zinc(b"23:59:59.999999999"),
+        Ctor::Zinc(b"2016-12-31T23:59:60Z"),
+        Ctor::Zinc(b"2021-01-01T00:00:00Z"),
+        Ctor::Zinc(b"1969-12-31T23:59:59.5-10:00 Honolulu"),
+        Ctor::Zinc(b"C(90,-180)"),
+        Ctor::Zinc(b"C(37.5451234567,-77.4491234567)"),
+        Ctor::Zinc(b"Span(\"today\")"),
+        Ctor::Zinc(b"^lib:ph"),
+        Ctor::Zinc(b"`http://x/a b?q=\\`1`"),
+        Ctor::Zinc(b"[[[[1]]],{a:{b:{c:[]}}}]"),
+        Ctor::Date(9999, 12, 31),
+        Ctor::Date(-1, 1, 1),
+        Ctor::Date(2021, 13, 1),
+        Ctor::Date(2021, 0, 0),
+        Ctor::Time(23, 59, 59),
+        Ctor::Time(24, 0, 0),
+        Ctor::Time(0, 60, 0),
+        Ctor::Time(0, 0, 60),
+        Ctor::TimeMillis(999),
+        Ctor::TimeMillis(1000),
+        Ctor::TimeMillis(u32::MAX),
+    ]
+}
+
+/// the histories of all machines (model-only search over canonical states) and of the exotic values
+pub fn machine_histories(tier: Tier) -> Vec<(String, Vec<Op>)> {
+    let mut out: Vec<(String, Vec<Op>)> = vec![];
+    for m in machines(tier) {
+        let mut base = Model::new();
+        for op in &m.setup {
+            model_step(&mut base, op);
+        }
+        let mut seen: std::collections::BTreeSet<String> = std::collections::BTreeSet::new();
+        seen.insert(base.key());
+        let mut frontier: Vec<(Vec<Op>, Model)> = vec![(m.setup.clone(), base)];
+        for d in 0..m.depth {
+            let mut next = vec![];
+            for (hist, model) in &frontier {
+                for op in &m.alphabet {
+                    // protocol: a constructor needs a free slot, every other operand a live handle
+                    let ok = match op {
+                        Op::Make(s, c) => {
+                            model.slots[*s].is_none()
+                                && match c {
+                                    Ctor::GridFromRows(a) => model.slots[*a].is_some(),
+                                    _ => true,
+                                }
+                        }
+                        Op::Destroy(s) | Op::RemoveAt(s, _) | Op::GetAt(s, _) | Op::RemoveKey(s, _) | Op::GetKey(s, _) | Op::MatchDict(s) => model.slots[*s].is_some() && (!matches!(op, Op::MatchDict(_)) || model.filter.is_some()),
+                        Op::Push(s, t) | Op::SetAt(s, _, t) | Op::Insert(s, _, t) | Op::Keys(s, t) | Op::RowAt(s, _, t) | Op::DtDate(s, _, t) | Op::DtTime(s, _, t) => model.slots[*s].is_some() && model.slots[*t].is_some(),
+                        Op::FirstMatch(s, t) | Op::MatchAll(s, t) => model.filter.is_some() && model.slots[*s].is_some() && model.slots[*t].is_some(),
+                        Op::FilterParse(_) => model.filter.is_none(),
+                    };
+                    if !ok {
+                        continue;
+                    }
+                    let mut h2 = hist.clone();
+                    h2.push(op.clone());
+                    out.push((format!("{}:{}", m.name, out.len()), h2.clone()));
+                    let mut m2 = model.clone();
+                    model_step(&mut m2, op);
+                    if d + 1 < m.depth && seen.len() < 60_000 && seen.insert(m2.key()) {
+                        next.push((h2, m2));
+                    }
+                }
+            }
+            frontier = next;
+        }
+    }
+    for (i, c) in exotic_ctors().into_iter().enumerate() {
+        out.push((format!("exotic:{i}"), vec![Op::Make(0, c.clone())]));
+        // a constructor the model rejects produces no handle to go on with
+        let mut probe = Model::new();
+        model_step(&mut probe, &Op::Make(1, c.clone()));
+        if probe.slots[1].is_none() {
+            continue;
+        }
+        out.push((format!("exotic-in-list:{i}"), vec![Op::Make(0, Ctor::List), Op::Make(1, c.clone()), Op::Push(0, 1), Op::Push(0, 1), Op::GetAt(0, 1)]));
+        out.push((format!("exotic-in-dict:{i}"), vec![Op::Make(0, Ctor::Dict), Op::Make(1, c), Op::Insert(0, b"k", 1), Op::Keys(0, 1)]));
+    }
+    out
+}
+
 pub fn run(tier: Tier) -> i32 {
     let mut run = Run::new("C17", tier, "model_checking");
     let depth = tier.pick(4usize, 5);
-    run.rule = format!("model: pool of {SLOTS} value handles + 1 filter handle; ~35 constructors (every kind; valid, invalid and non-UTF-8 arguments; from Zinc / JSON text; from other handles: utc/tz datetime, grid from rows with/without meta) and every list/dict/grid/datetime/filter operation over slot indices, list index {{0,1,7}}, keys {{a,b,invalid UTF-8}}, 5 filter texts. BFS over canonical model states to depth {depth}; every transition = one real extern \"C\" call on a real pool rebuilt by replaying the state's shortest history; after every step: return value = model (documented sentinel on failure), error message retrievable exactly once iff failure, whole pool deep-equal to the model (failure leaves all handles unchanged), borrowed entry pointers dereferenced immediately; after the last step every live handle is inspected with all 18 predicates and 35 getters incl. to_zinc_string / to_json_string against the Rust encoders. Symmetric states merged by constructing into the first free slot; plus one sweep of every string argument of every function with bytes that are not UTF-8 (sentinel, message, arguments unchanged)");
+    run.rule = format!("model: pool of {SLOTS} value handles + 1 filter handle; ~35 constructors (every kind; valid, invalid and non-UTF-8 arguments; from Zinc / JSON text; from other handles: utc/tz datetime, grid from rows with/without meta) and every list/dict/grid/datetime/filter operation over slot indices, list index {{0,1,7}}, keys {{a,b,invalid UTF-8}}, 5 filter texts. BFS over canonical model states to depth {depth}; every transition = one real extern \"C\" call on a real pool rebuilt by replaying the state's shortest history; after every step: return value = model (documented sentinel on failure), error message retrievable exactly once iff failure, whole pool deep-equal to the model (failure leaves all handles unchanged), borrowed entry pointers dereferenced immediately; after the last step every live handle is inspected with all 18 predicates and 35 getters incl. to_zinc_string / to_json_string against the Rust encoders. Symmetric states merged by constructing into the first free slot; plus three focused machines searched over canonical states — a list (three values pushed, set, removed, read at every index 0..3, the list into itself; depth 5/6), a dict (camelCase, empty, non-ASCII, blank-containing, 300-byte and invalid keys, overwriting, the dict into itself; depth 3/4), a four-row sparse grid (rows into a fresh handle, a dict handle and the grid itself, two filters, first/all matches into every handle; depth 3/4) — and 51 exotic values (interior NUL in every string position, 210 kB and non-ASCII strings, extreme numbers, dates, times, coordinates, multi-alias units) alone, in a list and in a dict, every live handle inspected with all getters after every step; plus one sweep of every string argument of every function with bytes that are not UTF-8 (sentinel, message, arguments unchanged)");
     run.assume("the model is written from the header documentation and the Rust API (Appendix C); equal model pools have equal futures (the API has no other state than the handles and the thread-local last error)");
     crate::engine::quiet_panics();
     let (search, l) = bfs(depth, tier.pick(1_500_000, 6_000_000), &visit);
@@ -189,6 +387,26 @@ pub fn run(tier: Tier) -> i32 {
     run.stats.states = search.states.len() as u64;
     for k in search.states.keys().take(200_000) {
         run.stats.nontrivial(k);
+    }
+    // focused machines and exotic values
+    let mh = machine_histories(tier);
+    run.note("machine_histories", json!(mh.len()));
+    let l = par_for(mh.len(), |i, local| {
+        local.eval();
+        local.transitions += 1;
+        local.traces += 1;
+        let (name, ops) = &mh[i];
+        let fam = name.split(':').next().unwrap_or("");
+        local.count(&format!("machine:{fam}"));
+        match guarded(|| run_history(ops, true)) {
+            Ok(Ok(_)) => local.outcome("ok"),
+            Ok(Err((k, e))) => local.fail(&format!("capi:{}:{fam}", op_class(&ops[k])), json!({"machine": name, "ops": ops_json(ops)}), e),
+            Err(p) => local.fail(&format!("panic:{}:{fam}", op_class(ops.last().unwrap())), json!({"machine": name, "ops": ops_json(ops)}), p),
+        }
+    });
+    run.absorb(l);
+    for fam in ["list", "dict", "grid", "exotic"] {
+        run.require(run.counter(&format!("machine:{fam}")) > 40, &format!("machine {fam} too small"));
     }
     // every string argument of every function, not UTF-8 (state independent)
     run.stats.evals += 1;
@@ -220,6 +438,19 @@ pub fn run(tier: Tier) -> i32 {
 }
 
 pub fn replay(case: &J) -> Verdict {
+    if let Some(name) = case["machine"].as_str() {
+        for tier in [Tier::Quick, Tier::Thorough] {
+            if let Some((_, ops)) = machine_histories(tier).into_iter().find(|(n, ops)| n == name && ops_json(ops) == case["ops"]) {
+                let fam = name.split(':').next().unwrap_or("").to_string();
+                return match guarded(|| run_history(&ops, true)) {
+                    Ok(Ok(_)) => Ok(()),
+                    Ok(Err((k, e))) => Err((format!("capi:{}:{fam}", op_class(&ops[k])), e)),
+                    Err(p) => Err((format!("panic:{}:{fam}", op_class(ops.last().unwrap())), p)),
+                };
+            }
+        }
+        return Err(("replay-machine-unknown".into(), name.to_string()));
+    }
     if case["bad_string_sweep"] == true {
         return match guarded(|| unsafe { crate::model::capi::bad_string_sweep() }) {
             Ok(Ok(_)) => Ok(()),
